@@ -658,3 +658,160 @@ def reductions(case):
             d = clone()
             d["model"][key] = "list"
             yield d
+
+
+# ---------------------------------------------------------------------------------------------------
+# C12: the same process set through different routes / orders / declaration styles
+# ---------------------------------------------------------------------------------------------------
+def execute_variants(case, prefix):
+    import random
+    pg = core.boot()
+    out, stats, log, measure = [], {}, [], []
+    rng = random.Random(case.get("run_seed", 0) ^ 0xC12)
+    base = case["model"]
+    kenv = case.get("env", {}).get("K", {"backend": "lambda"})
+    k = None
+    if "backend" not in kenv:
+        plan = list(kenv.get("plan", ["numpy"]))
+        k = seams.KSeam(pg.ou, lambda i: plan[i % len(plan)]).install()
+    built = []
+    try:
+        ref0 = RefModel(base)
+        names = ref0.state_names + ref0.param_names + ["t"]
+        theta = list(case["theta"])
+        for vi, var in enumerate(case["variants"]):
+            model = copy.deepcopy(base)
+            kind = var.get("kind", "events")
+            if kind == "explicit_ode":
+                # the whole model as explicit ODE strings written out from the reference
+                model["processes"] = []
+                model["derived"] = []
+                model["odes"] = [{"state": s, "eq": str(ref0.sym("f")[i])} for i, s in enumerate(ref0.state_names)]
+                routes, order = [], []
+            else:
+                routes = list(var["routes"])
+                order = list(var.get("order") or range(len(routes)))
+                for pr, bb in zip(model["processes"], var.get("birth_by", [])):
+                    for tr in pr["trans"]:
+                        if tr["type"] == "B" and bb:
+                            tr["birth_by"] = bb
+            for key in ("state_decl", "state_sep", "param_decl", "param_sep"):
+                if key in var:
+                    model[key] = var[key]
+            try:
+                ode = build_model(pg, model, routes, order, backend=kenv.get("backend"))
+                if ref0.p:
+                    ode.parameters = dict(zip(ref0.param_names, theta)) if var.get("theta_as") == "dict" else list(theta)
+            except core.RunTimeout:
+                raise
+            except Exception as e:
+                out.append(core.crash_failure(prefix, e, vi, "building variant %d (%s)" % (vi, kind)))
+                continue
+            measure.append([kind, tuple(sorted(set(routes))), model.get("state_decl"), model.get("param_decl")])
+            ref = ref0 if kind == "explicit_ode" else RefModel(model, insertion_order(model, routes, order))
+            built.append((vi, kind, ode, ref))
+            # symbolic equality with the reference
+            try:
+                eq = ode.get_ode_eqn()
+                for i in range(ref0.n):
+                    ok, _ = sym_equal(eq[i], ref0.sym("f")[i], rng, names)
+                    if not ok:
+                        out.append(fail("%s.route.ode_eqn" % prefix, vi, "variant %d (%s, routes %s): d%s/dt = %s, expected %s" % (
+                            vi, kind, routes, ref0.state_names[i], eq[i], ref0.sym("f")[i])))
+                        break
+            except core.RunTimeout:
+                raise
+            except Exception as e:
+                out.append(core.crash_failure(prefix, e, vi, "get_ode_eqn on variant %d" % vi))
+                continue
+            for (x, t) in case["points"]:
+                for nm in ("ode", "jacobian") + (("eventRateVector",) if kind != "explicit_ode" and ref.m else ()):
+                    try:
+                        got = np.asarray(getattr(ode, nm)(np.array(x, float), t), float)
+                    except core.RunTimeout:
+                        raise
+                    except Exception as e:
+                        out.append(core.crash_failure(prefix, e, vi, "%s on variant %d" % (nm, vi)))
+                        continue
+                    stats["evaluations"] = stats.get("evaluations", 0) + 1
+                    log.append(["var", vi, nm, core.digest(got.tolist(), 10)])
+                    want = ref_value(ref, nm, x, t, theta)
+                    msg = cmp_arrays(got, want, 1e-9, 1e-11, collapse_ok=True)
+                    if msg:
+                        out.append(fail("%s.route.%s" % (prefix, nm), vi, "variant %d (%s, routes %s, order %s): %s" % (vi, kind, routes, order, msg)))
+        # pairwise agreement of PyGOM's own outputs (summation order may differ: 1e-12 relative)
+        for (x, t) in case["points"]:
+            vals = []
+            for vi, kind, ode, ref in built:
+                try:
+                    vals.append((vi, np.asarray(ode.ode(np.array(x, float), t), float)))
+                except Exception:
+                    pass
+            for (va, a), (vb, b) in itertools.combinations(vals, 2):
+                if a.shape != b.shape or np.any(np.abs(a - b) > 1e-11 * (1 + np.abs(a) + np.abs(b))):
+                    # tolerance scaled by the terms, not the (possibly cancelling) sum
+                    ref_terms = np.abs(ref0.num("V", x, t, theta)).dot(np.abs(ref0.rates(x, t, theta))) if ref0.m else 0.0
+                    if a.shape != b.shape or np.any(np.abs(a - b) > 1e-11 * (1 + ref_terms + np.abs(ref0.num("g", x, t, theta).ravel()))):
+                        out.append(fail("%s.route.pair" % prefix, va, "variants %d and %d disagree: %s vs %s" % (va, vb, a.tolist(), b.tolist())))
+                        break
+        stats["variants"] = len(built)
+    finally:
+        if k is not None:
+            k.remove()
+    seen, uniq = set(), []
+    for f in out:
+        if f["oracle"] not in seen:
+            seen.add(f["oracle"])
+            uniq.append(f)
+    log.append(["failures", sorted(seen)])
+    return {"failures": uniq, "stats": stats, "log": log, "faults": dict(k.fired) if k is not None else {},
+            "measure": [list(map(lambda v: list(v) if isinstance(v, tuple) else v, m_)) for m_ in measure], "nontrivial": len(built) >= 2}
+
+
+def variant_reductions(case):
+    c = case
+
+    def clone():
+        return copy.deepcopy(c)
+    if len(c["variants"]) > 1:
+        for i in range(len(c["variants"])):
+            d = clone()
+            del d["variants"][i]
+            yield d
+    procs = c["model"].get("processes", [])
+    for i in range(len(procs)):
+        if len(procs) <= 1:
+            break
+        d = clone()
+        del d["model"]["processes"][i]
+        for v in d["variants"]:
+            if "routes" in v:
+                del v["routes"][i]
+                if v.get("order"):
+                    v["order"] = [j - (j > i) for j in v["order"] if j != i]
+                if v.get("birth_by"):
+                    del v["birth_by"][i]
+        yield d
+    for vi, v in enumerate(c["variants"]):
+        if v.get("order"):
+            d = clone()
+            d["variants"][vi]["order"] = None
+            yield d
+        for key in ("state_decl", "param_decl"):
+            if v.get(key) == "string":
+                d = clone()
+                d["variants"][vi][key] = "list"
+                yield d
+        for j, r in enumerate(v.get("routes", [])):
+            if r != "event":
+                d = clone()
+                d["variants"][vi]["routes"][j] = "event"
+                yield d
+    if len(c["points"]) > 1:
+        d = clone()
+        d["points"] = d["points"][:1]
+        yield d
+    if c.get("env", {}).get("K") != {"backend": "lambda"}:
+        d = clone()
+        d["env"] = {"K": {"backend": "lambda"}}
+        yield d
